@@ -29,6 +29,7 @@ typedef struct {
   void *(*fn)(void *);
   void *arg;
   unsigned long cvseq; /* order of arrival on the condvar (for signal) */
+  uint64_t pc;         /* hash of the return-address chain at the thread's current scheduling point */
 } vthr;
 
 static vthr T[VS_MAXT];
@@ -52,6 +53,7 @@ int vs_nthreads_seen = 0;
 vs_race_t vs_races[VS_MAXRACES];
 int vs_nraces = 0;
 uint64_t vs_hashes[VS_MAXPTS];
+uint64_t vs_parts[VS_MAXPTS][4];
 uint64_t (*vs_obs_hash)(void) = 0;
 long (*vs_group_of)(int op, void *obj) = 0;
 int (*vs_fp_of)(int op, void *obj, vs_fp_t out[VS_MAXFP]) = 0;
@@ -132,6 +134,10 @@ static int fp_of(int t, vs_fp_t out[VS_MAXFP]) {
     int n = vs_fp_of(op, T[t].obj, out);
     if (n >= 0) return n;
   }
+  if ((op == OP_LOCK || op == OP_BCAST || op == OP_SIGNAL) && !vs_fp_of && T[t].obj) {
+    /* no harness mapping: the pthread object itself is the shared object (a notify also touches the mutex of its waiters: unknown here, so a waiter's wake-up is treated through the condvar object, which its pending re-lock does not name -> be conservative for notifies) */
+    if (op == OP_LOCK) { out[0].obj = (long)(uintptr_t)T[t].obj; out[0].write = 1; return 1; }
+  }
   out[0].obj = -1; out[0].write = 1; /* create, join, start, unknown objects: dependent with everything */
   return 1;
 }
@@ -144,20 +150,41 @@ static int indep_fp(const vs_fp_t *a, int na, const vs_fp_t *b, int nb) {
   return 1;
 }
 
+int vs_pc_frames = 10;
+/* control location of the calling thread: hash of up to vs_pc_frames return addresses (frame-pointer walk; all code
+   involved is compiled with -fno-omit-frame-pointer, addresses are identical in every forked child) */
+extern char __executable_start, etext; /* linker-defined: text of the harness executable (wencry + harness code, all built with frame pointers) */
+static uint64_t callchain_hash(void) {
+  uint64_t h = 0x9ae16a3b2f90404fULL;
+  void **fp = (void **)__builtin_frame_address(0);
+  for (int i = 0; i < vs_pc_frames && fp; i++) {
+    void **next = (void **)fp[0];
+    void *ret = fp[1];
+    if ((char *)ret < &__executable_start || (char *)ret >= &etext) break; /* left our own code (libstdc++/libc frames keep no frame pointer: their chain is garbage) */
+    h ^= (uint64_t)(uintptr_t)ret + 0x9e3779b97f4a7c15ULL + (h << 6) + (h >> 2);
+    if (next <= fp || (char *)next - (char *)fp > (1 << 20)) break; /* end of the chain / foreign frame */
+    fp = next;
+  }
+  return h;
+}
 static uint64_t mix(uint64_t h, uint64_t v) {
   h ^= v + 0x9e3779b97f4a7c15ULL + (h << 6) + (h >> 2);
   return h * 0xff51afd7ed558ccdULL;
 }
+uint64_t vs_hashparts[4]; /* debugging aid: the last state hash split into (thread ops, control locations, mutex owners, observable state) */
 static uint64_t state_hash(void) {
-  uint64_t h = 1469598103934665603ULL;
+  uint64_t h = 1469598103934665603ULL, a = 7, b = 11, c2 = 13;
   for (int t = 0; t < nthr; t++) {
-    h = mix(h, (uint64_t)T[t].st * 16 + T[t].op);
-    h = mix(h, (uint64_t)grp_of(t));
-    if (T[t].op == OP_JOIN) h = mix(h, T[t].jt);
+    a = mix(a, (uint64_t)T[t].st * 16 + T[t].op);
+    a = mix(a, (uint64_t)grp_of(t));
+    if (T[t].st == ST_RUN) b = mix(b, T[t].pc + t);
+    if (T[t].op == OP_JOIN) a = mix(a, T[t].jt);
   }
   for (int i = 0; i < nmu; i++)
-    if (MU[i].owner != -1) h = mix(h, ((uint64_t)(vs_group_of ? vs_group_of(OP_LOCK, MU[i].m) : i) << 8) + MU[i].owner + 1);
-  if (vs_obs_hash) h = mix(h, vs_obs_hash());
+    if (MU[i].owner != -1) c2 = mix(c2, ((uint64_t)(vs_group_of ? vs_group_of(OP_LOCK, MU[i].m) : i) << 8) + MU[i].owner + 1);
+  uint64_t o = vs_obs_hash ? vs_obs_hash() : 0;
+  vs_hashparts[0] = a; vs_hashparts[1] = b; vs_hashparts[2] = c2; vs_hashparts[3] = o;
+  h = mix(mix(mix(mix(h, a), b), c2), o);
   return h;
 }
 
@@ -212,6 +239,7 @@ static void reschedule(void) {
         vs_pt_t *p = &vs_pts[vs_npts];
         p->nen = nc; p->chosen_idx = ci; p->cur_enabled = cur_en; p->chosen_tid = cand[ci]; p->spur_from = nc; p->op = T[cand[ci]].op;
         vs_hashes[vs_npts] = state_hash();
+        memcpy(vs_parts[vs_npts], vs_hashparts, sizeof vs_hashparts);
         vs_npts++;
       }
       for (int i = 0; i < ci; i++) Z[cand[i]] = 1;
@@ -241,6 +269,7 @@ static void reschedule(void) {
         p->chosen_tid = idx < n ? en[idx] : spur[idx - n];
         p->op = T[p->chosen_tid].op;
         vs_hashes[vs_npts] = state_hash();
+        memcpy(vs_parts[vs_npts], vs_hashparts, sizeof vs_hashparts);
         vs_npts++;
       }
       if (idx >= n) { /* inject a spurious wake-up, then decide again */
@@ -262,6 +291,7 @@ static void reschedule(void) {
 }
 static void point(int op, void *obj, long grp) {
   int me = cur;
+  T[me].pc = callchain_hash();
   T[me].op = op;
   T[me].obj = obj;
   T[me].grp = grp;
@@ -400,6 +430,7 @@ static int model_wait(pthread_cond_t *c, pthread_mutex_t *m) {
   MU[i].owner = -1;
   memcpy(MU[i].vc, VC[me], sizeof MU[i].vc);
   VC[me][me]++;
+  T[me].pc = callchain_hash();
   T[me].op = OP_CONDBLOCKED;
   T[me].obj = c;
   T[me].obj2 = m;
